@@ -22,10 +22,11 @@ RULE = ('files generated from a per-format grammar (BED3/6/12, bedGraph, narrowP
         'same columns; non-trivial = at least two records and some column whose texts have unequal widths (or, for wrapped FASTA, '
         'a sequence spanning several lines)')
 EXHAUSTIVE = {'quick': False, 'thorough': False}
-TIE = ('translator+correspondence: translate/gen_c02.py regenerates 30 index/offset formulas (column count, buffer size, '
+TIE = ('translator+correspondence: translate/gen_c02.py regenerates 60 index/offset formulas (column count, buffer size, '
        'sentinel, field start/end, record ends before the CR adjustment, CR probe and adjustment, digit-matrix window and fill, '
-       'keep_sep, VCF position shift, SAM rest-of-line, INFO key-length arithmetic and guard) into Gen/C02.v; Bridge/C02.v proves '
-       'them equal to the named helpers of Model/C02.v (theorem C02_source_tie); and Model.C02.run is evaluated in Coq on the file '
+       'keep_sep, VCF position shift, SAM rest-of-line, INFO key-length arithmetic and guard; wrapped FASTA: next-byte scan, cut, line starts / ends, CR window / probe / adjustment, '
+       'header-line index, lines per entry, name offset; GFF3 / wig interior comments: probe after a line break, deleted end delimiter, sentinel, start offset, column count, CR adjustment applied) into Gen/C02.v; Bridge/C02.v proves '
+       'them equal to the named helpers of Model/C02.v (theorems C02_source_tie, C02_fasta_source_tie, C02_ic_source_tie); and Model.C02.run is evaluated in Coq on the file '
        'bytes and compared with every parsed column')
 ASSUMPTIONS = ['sessions: the Coq model is a function of the file bytes; that repeated parses of one table / buffer agree with the first one is checked by the harness (observe/_session) and enters spec_ok through the observation flag, it is not a Coq theorem',
                'A-IO: the reader delivers the whole file (after the leading comment block) as one chunk; chunking is C01',
@@ -35,7 +36,10 @@ ASSUMPTIONS = ['sessions: the Coq model is a function of the file bytes; that re
                'missing values: the library represents a missing Optional[int] as 0 and a missing Optional[float] as NaN; the specification adopts that representation']
 PARTIAL = ['C02_optint_refuted / C02_intlist_refuted / C02_info_short_refuted / C02_sid_all_empty_refuted record what was false of the code before the repairs now in /repo (the last one about sid_col_pinned); the positive theorems (C02_optint_fixed_correct, C02_intlist_fixed_correct, C02_info_*_correct, C02_sid_correct) are about the repaired code the model follows',
            'end-to-end theorems: BED3/6/12, chrom.sizes, pairs, GFA, GTF, VCF fixed columns with undeclared INFO (C02_delimited_end_to_end), SAM on LF and CRLF files (C02_sam_end_to_end), FASTQ and two-line FASTA (LF and CRLF); bedGraph / narrowPeak column-wise without the float columns (C02_delimited_columns); genotype string cells (C02_padded_cell_correct); INFO String / scalar Integer / Flag keys',
-           'correspondence only: float columns (exact-rational model within 2^-50), wrapped FASTA, GFF3 / wig interior-comment deletion, list-valued and Float INFO keys, genotype code matrices; open findings: CRLF for GFF3 / wig, interior comment lines containing a TAB (repairs proposed: notes/C02.fix-4.diff, notes/C02.fix-5.diff)',
+           'wrapped FASTA (MultiLineFastaBuffer): C02_fasta_lines_end_to_end (records with any list of sequence lines: none, empty, unequal widths; LF and CRLF with the final line break) and C02_fasta_wrapped_end_to_end (the generator layout at any width w >= 1), C02_fasta_spec_file_end_to_end (every layout of Spec.spec_file: LF / CRLF, with / without the final line break); its offset arithmetic is translated (C02_fasta_source_tie)',
+           'GFF3 / wig interior comment lines (DelimitedBufferWithInernalComments, the repaired code): C02_ic_table_correct (one row per record, texts = fields; comments anywhere after the first record, consecutive, with TABs, last line; LF and CRLF), C02_ic_table_same_as_stripped (= the table of the file without the comment lines), C02_gff_end_to_end, C02_ic_columns (wig: every column but the float one). Not proved: files without the final line break',
+           'list-valued INFO keys: C02_info_list_lookup_correct (keep_sep lookup + repaired split, any item parser), C02_info_intlist_col_correct / C02_info_intlist_spec (Integer lists = the Spec), C02_info_floatlist_col_correct (list structure; item values through the model decimal reader); genotype code matrices: C02_geno_col_correct, C02_delim_table_shape, C02_vcf_geno_end_to_end (whole VCF files with undeclared INFO, sample cells of >= 3 bytes)',
+           'correspondence only: float VALUES (exact-rational model within 2^-50: bedGraph / narrowPeak / wig float columns, Float INFO scalars and list items), scalar Float INFO keys, whole VCF files with DECLARED INFO keys (the per-key column theorems are not yet composed into one run theorem), CRLF files without the final line break for GFF3 / wig (the end-to-end theorems of the delimited formats are stated for files with the final line break)',
            'not modelled (ill-formed input only): the reader\'s "incomplete entry at the end of the file" check (parser.py 03a5b64) and the order of FASTQ validation messages']
 PER_FILE = 40
 
@@ -444,6 +448,49 @@ def generate(tier, seed):
     # wrapped FASTA with CRLF line ends whose last line has no line break (the reader appends a bare LF)
     for rep in range(4 * reps):
         cases.append(_mk(rng, 'fasta', rng.randint(1, 4), rng.choice([4, 9, 30]), crlf=True, final_newline=False))
+    # wrapped FASTA boundary classes (round 6, theorem C02_fasta_wrapped_end_to_end): width 1, sequence length 0 / 1 / w-1 / w /
+    # w+1 / exact multiples / more than 10 lines (the CR rule looks at the first 10 line ends), single-line records,
+    # an empty sequence first / in the middle / last, LF and CRLF, with and without the final line break
+    for rep in range(6 * reps):
+        w = [1, 2, 3, 4, 7, 1][rep % 6]
+        n = rng.randint(1, 5)
+        case = _mk(rng, 'fasta', n, 4, crlf=(rep % 2 == 1), final_newline=(rep % 3 != 2))
+        case['width'] = w
+        lens = [rng.choice([0, 1, max(w - 1, 0), w, w + 1, 2 * w, 3 * w, 3 * w + 1, 11 * w + rng.randint(0, w)]) for _ in range(n)]
+        for r_, L in zip(case['recs'], lens):
+            r_[1] = ''.join(rng.choice(SEQ) for _ in range(L))
+        if not case['final_newline'] and lens[-1] == 0 and not case['recs'][-1][0]:
+            case['final_newline'] = True       # a bare '>' without line break is not a complete line
+        cases.append(case)
+    # GFF3 / wig interior comment lines (round 6, theorems C02_ic_table_correct / C02_gff_end_to_end / C02_ic_columns): comment
+    # after the first / every / the last record, runs of consecutive comments, comments containing TABs (also a TAB as the
+    # last byte and a bare '#'), a '#' header block in front, LF and CRLF, with and without the final line break
+    for rep in range(10 * reps):
+        fmt = INTERIOR[rep % 2]
+        n = rng.randint(1, 5)
+        case = _mk(rng, fmt, n, rng.choice([1, 3, 6]), crlf=(rep % 4 >= 2), final_newline=(rep % 5 != 4), interior=False)
+        g = G(rng, 6)
+        def comment(tabs):
+            return '#' + g.text(0, NAME + ' ' + ('\t\t' if tabs else ''))
+        pattern = rep % 5
+        com = {}
+        for i in range(1, n + 1):
+            if pattern == 0 or (pattern == 1 and i == n) or (pattern == 2 and i == 1) or (pattern >= 3 and rng.random() < 0.6):
+                k = 3 if pattern == 3 else rng.randint(1, 2)
+                com[str(i)] = [comment(tabs=(pattern != 2 and rng.random() < 0.6)) for _ in range(k)]
+        if pattern == 4 and com:
+            first = sorted(com)[0]
+            com[first] = ['#', '#\t', '#a\tb\t'] + com[first]
+        case['comments'] = com
+        if rep % 3 == 0:
+            case['header'] = (case['header'] or []) + ['#' + g.text(0, NAME + ' \t')]
+        if not case['final_newline']:
+            case['final_newline'] = True
+            full = file_bytes(case)
+            eol = b'\r\n' if case['crlf'] else b'\n'
+            if not full.endswith(eol + eol) and full != eol:
+                case['final_newline'] = False
+        cases.append(case)
     # SAM with CRLF line ends (repaired in /repo 6bbd290): with and without tags, last record with / without final line break
     for rep in range(4 * reps):
         for p_tags in (0, 0.5, 1):
